@@ -40,15 +40,15 @@ RULE = ("universe: 2 regions, local ids 1..5, 5 objects; alphabet of 38 concrete
         ". Rounds 6-7: object kinds other than prim and avatar (tree, grass, particle system) as children; one of several callers waiting for the same object gives up"
         ". Round 8: the viewers' cache files written again while the proxy runs (action WA) - the region's next life reads the new files (a state only they know: XA8new), the current one keeps what it loaded"
         ". Round 9: teardown followed by a straggling update of that region before it is brought up again (also with nothing tracked anywhere)"
-        ". Round 10: the viewers' cache files start with entries of the largest and smallest size the format allows (10000 bytes, 9999, 1) for objects nobody asks about")
+        ". Round 10: the viewers' cache files start with entries of the largest and smallest size the format allows (10000 bytes, 9999, 1) for objects nobody asks about. Round 11: the avatar sits on a prim (known or not yet seen), alone and with an attachment; the seat is killed (the avatar stays and waits for its parent) and its local id announced again")
 ASSUMPTIONS = [
-    "all objects are primitives (avatars as children of killed objects are a deliberate special case in the code)",
+    "a kill does not cascade to an avatar sitting on the killed object (the code's deliberate special case, after the simulator's): the avatar stays tracked and waits for its parent like any object whose parent is unknown",
     "updates only name regions the session tracks; a torn-down region is tracked again before further updates",
     "a request for an object that never appears may stay pending; a request for an object that moves to another region / local id must not stay pending; requests must be resolved by the matching update and "
     "cancelled by a kill of that local id or a teardown of its region",
     "child order is not asserted (link order is guesswork in the code by its own comments)",
 ]
-MUST_REACH = {"steps": 5000, "states": 300, "orphans_adopted": 20, "cascade_kills": 20, "region_moves": 20,
+MUST_REACH = {"kills_of_a_seat_under_an_avatar": 10, "kills_of_an_unknown_seat_an_avatar_waits_for": 10, "steps": 5000, "states": 300, "orphans_adopted": 20, "cascade_kills": 20, "region_moves": 20,
               "local_id_changes": 10, "teardowns": 20, "futures_resolved": 20, "futures_cancelled": 20, "reparents": 20,
               "multi_orphan_lists": 10, "kills_of_unknown_with_orphans": 5, "steps_without_loop_iteration": 50, "requests_pending_when_object_left": 5, "object_manager_configs_covered": 3,
               "avatar_updates": 50, "multi_object_messages": 20, "viewer_cache_hits": 20, "stragglers_after_teardown": 20, "teardowns_with_nothing_tracked_anywhere": 5, "viewer_cache_hits_only_in_rewritten_files": 4, "viewer_cache_chains_loaded": 5,
@@ -338,6 +338,9 @@ ACTIONS = [
     ("VA9last+2", "M", ("A", ((9, 9, 0, "last"), (2, 2, 9, "prim")))), ("VA9first+4", "M", ("A", ((9, 9, 0, "first"), (4, 4, 9, "prim")))),
     ("VA9title+1", "M", ("A", ((9, 9, 0, "title"), (1, 1, 0, "prim")))), ("VA9display", "M", ("A", ((9, 9, 0, "display"),))),
     ("KA9", "K", ("A", (9,))),
+    # Round 11: the avatar sits on an object (its parent is a prim); a kill of the seat does not kill the avatar, which waits
+    # for its parent like any other object whose parent is unknown
+    ("VA9on1", "M", ("A", ((9, 9, 1, "both"),))), ("VA9on2+4", "M", ("A", ((9, 9, 2, "first"), (4, 4, 9, "prim")))),
     ("PA1", "P", (1, False)), ("FA2", "P", (2, True)), ("PA4", "P", (4, False)),
     ("KA1", "K", ("A", (1,))), ("KA2", "K", ("A", (2,))), ("KA5", "K", ("A", (5,))), ("KA12", "K", ("A", (1, 2))), ("KB1", "K", ("B", (1,))),
     ("DA", "D", ("A",)), ("DB", "D", ("B",)),
@@ -351,6 +354,9 @@ ACTIONS = [
     ("QA2", "R", ("A", 2, "properties")), ("RQA4", "R", ("A", 4, "both")),
 ]
 ACTION_BY_NAME = {a[0]: a for a in ACTIONS}
+
+
+AVATAR_FIDX = 9
 
 
 class Model:
@@ -598,6 +604,10 @@ class World:
                     cur = stack.pop()
                     killed_locals.add(cur)
                     kids = m.children_of(rn, cur)
+                    if any(m.live(rn, k) == AVATAR_FIDX for k in kids):
+                        # a kill does not cascade to a seated avatar (it stays, its parent now unknown)
+                        kids = [k for k in kids if m.live(rn, k) != AVATAR_FIDX]
+                        ctx.count("kills_of_a_seat_under_an_avatar" if m.live(rn, cur) is not None else "kills_of_an_unknown_seat_an_avatar_waits_for")
                     if kids and cur != l:
                         ctx.count("cascade_kills")
                     elif kids:
